@@ -1,18 +1,28 @@
 (* Correspondence for C13: compare the heap model of ReversibleRule + evolve with what /repo did on
-   the same inputs.  Observables (exactly what the property constrains): the returned array, and
-   every object the caller held (the automaton, the list / array / other array passed as
-   init_state) as it is AFTER the call. *)
+   the same inputs.  Observables (exactly what the property constrains): the returned array, every
+   object the caller held (the automaton, the list / tuple / array / other array passed as
+   init_state) as it is AFTER the call -- observed also when the call raised -- and, for runs that
+   are continued with the SAME rule object, the rule's own previous-state vector between and after
+   the runs (the state the second-order theorem says it holds). *)
 From CPL Require Import Model.Base Model.Reversible.
 
 Inductive case :=
 (* rule = ReversibleRule(<arg>, R); out = evolve(<array at ca_id>, T, rule, r=1);
-   obs = (out, the caller's objects after the call, in heap order) *)
-| CRun (h : heap) (ca_id : nat) (arg : init_arg) (R : N) (T : nat)
-       (obs : res (list (list Z) * heap))
+   obs = out (or the exception), after = the caller's objects after the call, in heap order.
+   lenient = the input is outside the property's domain (float-valued init_state, on which `^`
+   raises TypeError): then an exception is accepted, but the caller's objects must be intact and a
+   returned array must still be the model's. *)
+| CRun (lenient : bool) (h : heap) (ca_id : nat) (arg : init_arg) (R : N) (T : nat)
+       (obs : res (list (list Z))) (after : heap)
 (* forward: out1 = evolve([init], T, ReversibleRule(prev, R)); backward: out2 =
    evolve([out1[-2]], T, ReversibleRule(out1[-1], R));  obs = (out1, out2) *)
 | CRetrace (prev init : list Z) (R : N) (T : nat)
-           (obs : res (list (list Z) * list (list Z))).
+           (obs : res (list (list Z) * list (list Z)))
+(* rule = ReversibleRule(<arg>, R); out1 = evolve(ca, T1, rule); p1 = rule._previous_state;
+   out2 = evolve(out1, T2, rule)  -- the SAME object --; p2 = rule._previous_state;
+   obs = ((out1, p1), (out2, p2)), after = the caller's objects after both calls *)
+| CContinue (h : heap) (ca_id : nat) (arg : init_arg) (R : N) (T1 T2 : nat)
+            (obs : res ((list (list Z) * list Z) * (list (list Z) * list Z))) (after : heap).
 
 Definition model_run (h : heap) (ca_id : nat) (arg : init_arg) (R : N) (T : nat)
   : res (list (list Z) * heap) :=
@@ -26,12 +36,27 @@ Definition model_retrace (prev init : list Z) (R : N) (T : nat)
   bind (run_reversible [[nth (T - 2) out1 []]; [nth (T - 1) out1 []]] 0 (ArgArray 1) R T 1) (fun r2 =>
   Ok (out1, snd r2))).
 
-(* what the model computes, printable in a replay: (first array, second array or the caller's
-   objects flattened to their rows) *)
+(* the rule object's state is threaded: the second evolve runs on the heap the first one left,
+   extended with the array the first one returned (a new object), with the same rev_obj *)
+Definition model_continue (h : heap) (ca_id : nat) (arg : init_arg) (R : N) (T1 T2 : nat)
+  : res (((list (list Z) * list Z) * (list (list Z) * list Z)) * heap) :=
+  let '(h1, o) := mk_reversible h arg R in
+  bind (evolve_heap h1 ca_id T1 o 1) (fun r1 =>
+  let '(h2, out1) := r1 in
+  let '(h3, id1) := h_alloc h2 out1 in
+  bind (evolve_heap h3 id1 T2 o 1) (fun r2 =>
+  let '(h4, out2) := r2 in
+  Ok (((out1, h_row h2 (prev_ref o)), (out2, h_row h4 (prev_ref o))), firstn (length h) h4))).
+
+(* what the model computes, printable in a replay: (the array returned last, [other arrays;
+   private vectors as one-row arrays; the caller's objects]) *)
 Definition model_out (c : case) : res (list (list Z) * list (list (list Z))) :=
   match c with
-  | CRun h ca_id arg R T _ => model_run h ca_id arg R T
+  | CRun _ h ca_id arg R T _ _ => model_run h ca_id arg R T
   | CRetrace prev init R T _ => bind (model_retrace prev init R T) (fun p => Ok (fst p, [snd p]))
+  | CContinue h ca_id arg R T1 T2 _ _ =>
+      bind (model_continue h ca_id arg R T1 T2) (fun p =>
+      let '(((out1, p1), (out2, p2)), aft) := p in Ok (out2, [out1; [p1]; [p2]] ++ aft))
   end.
 
 Definition pair_eqb {A B} (ea : A -> A -> bool) (eb : B -> B -> bool) (x y : A * B) : bool :=
@@ -39,8 +64,13 @@ Definition pair_eqb {A B} (ea : A -> A -> bool) (eb : B -> B -> bool) (x y : A *
 
 Definition check_case (c : case) : bool :=
   match c with
-  | CRun h ca_id arg R T obs =>
-      res_eqb_anyexc (pair_eqb zgrid_eqb zhist_eqb) (model_run h ca_id arg R T) obs
+  | CRun lenient h ca_id arg R T obs after =>
+      match model_run h ca_id arg R T with
+      | Ok (out, aft) =>
+          zhist_eqb aft after &&
+          match obs with Ok o => zgrid_eqb out o | Raise _ => lenient end
+      | Raise _ => match obs with Raise _ => zhist_eqb h after | Ok _ => false end
+      end
   | CRetrace prev init R T obs =>
       res_eqb_anyexc (pair_eqb zgrid_eqb zgrid_eqb) (model_retrace prev init R T) obs
       (* and the theorem's conclusion on the observed arrays themselves *)
@@ -48,4 +78,11 @@ Definition check_case (c : case) : bool :=
          | Ok (out1, out2) => zgrid_eqb out2 (rev (removelast out1) ++ [prev])
          | Raise _ => true
          end
+  | CContinue h ca_id arg R T1 T2 obs after =>
+      match model_continue h ca_id arg R T1 T2, obs with
+      | Ok (m, aft), Ok o =>
+          pair_eqb (pair_eqb zgrid_eqb zlist_eqb) (pair_eqb zgrid_eqb zlist_eqb) m o && zhist_eqb aft after
+      | Raise _, Raise _ => zhist_eqb h after
+      | _, _ => false
+      end
   end.
